@@ -22,33 +22,25 @@ func BuildEndpointPolicyTree(
 	endpoints []sharedConfig.EndpointConfig,
 ) (*EndpointPolicyTree, error) {
 	endpointPolicyTree := newEndpointPolicyTree()
+	// the method map of every URL declared so far; the tree itself cannot be asked for
+	// it, because a lookup treats the declared URL as a request (its '*' or literal
+	// segment may be bound by a parameter declared earlier)
+	declared := map[string]*map[urltree.Method]EndpointPolicy{}
 	for _, endpoint := range endpoints {
 		err := checkForDuplicates(endpointPolicyTree, endpoint)
 		if err != nil {
 			return nil, err
 		}
-		var endpointPolicy *map[urltree.Method]EndpointPolicy
-		existingEndpointPolicy := endpointPolicyTree.Lookup(endpoint.URL)
-		// extend the method map only of the very same declared URL; a lookup may also
-		// match a less specific pattern (parameter or wildcard) declared earlier,
-		// whose map must neither be modified nor shared
-		if existingEndpointPolicy.Value != nil &&
-			isDeclaredFor(*existingEndpointPolicy.Value, endpoint.URL) {
-			existingPolicy := *existingEndpointPolicy.Value
-			existingPolicy[urltree.Method(endpoint.Method)] = EndpointPolicy{
-				URL:       endpoint.URL,
-				Remedies:  endpoint.Remedies,
-				Diagnosis: endpoint.Diagnosis,
-			}
-			endpointPolicy = &existingPolicy
-		} else {
-			endpointPolicy = &map[urltree.Method]EndpointPolicy{
-				urltree.Method(endpoint.Method): {
-					URL:       endpoint.URL,
-					Remedies:  endpoint.Remedies,
-					Diagnosis: endpoint.Diagnosis,
-				},
-			}
+		declaredKey := strings.Trim(endpoint.URL, "./")
+		endpointPolicy, found := declared[declaredKey]
+		if !found {
+			endpointPolicy = &map[urltree.Method]EndpointPolicy{}
+			declared[declaredKey] = endpointPolicy
+		}
+		(*endpointPolicy)[urltree.Method(endpoint.Method)] = EndpointPolicy{
+			URL:       endpoint.URL,
+			Remedies:  endpoint.Remedies,
+			Diagnosis: endpoint.Diagnosis,
 		}
 		err = endpointPolicyTree.InsertDeclaredURL(endpoint.URL, endpointPolicy)
 		if err != nil {
@@ -61,15 +53,6 @@ func BuildEndpointPolicyTree(
 		}
 	}
 	return endpointPolicyTree, nil
-}
-
-// isDeclaredFor reports whether the method map is the one of the node declared for url
-// (all policies of a node carry the URL they were declared with)
-func isDeclaredFor(policies map[urltree.Method]EndpointPolicy, url string) bool {
-	for _, policy := range policies {
-		return strings.Trim(policy.URL, "./") == strings.Trim(url, "./")
-	}
-	return false
 }
 
 func newEndpointPolicyTree() *EndpointPolicyTree {
